@@ -85,7 +85,29 @@ pub struct World {
   pub stall: Option<(usize, u64)>     // one-off stall: the n-th time-out is served this much late
 }
 
-pub fn fault_text(k: usize) -> String { format!("injected fault #{}", k) }
+// The text of the injected error, a function of the call index and the kind of call (so a replay injects the same
+// text).  A quarter of the faults carry a bare marker; the others carry the text the REAL driver would produce for an
+// OS error at that kind of call: one of the loop's own "... failed ..." format strings (mined from the string
+// literals of remapping_loop.rs, preferring the one that names the kind of call) filled with nix's rendering of an
+// errno value, with or without the marker in front.  A loop that treats some failures specially by their text
+// (retrying on EAGAIN, ignoring EINTR, ...) meets those texts here.
+pub fn fault_text(k: usize, what: &str) -> String {
+  use nix::errno::Errno::*;
+  const ERRNOS: [nix::errno::Errno; 28] = [EAGAIN, EINTR, EIO, ENODEV, EPIPE, ENOSPC, EBADF, EINVAL, ENOMEM, EFAULT, ENXIO, EPERM, EACCES, EBUSY, ENOENT,
+    ETIMEDOUT, ECONNRESET, EOVERFLOW, EMSGSIZE, ENOTTY, EISDIR, EFBIG, EDQUOT, ENOBUFS, ESHUTDOWN, ENOTCONN, EDESTADDRREQ, EOPNOTSUPP];
+  let marker = format!("injected fault #{}", k);
+  if k % 4 == 0 { return marker; }
+  static FORMATS: std::sync::OnceLock<Vec<String>> = std::sync::OnceLock::new();
+  let formats = FORMATS.get_or_init(|| crate::dict::tokens(&["remapping_loop.rs"]).into_iter().filter(|t| t.contains("{}") && t.to_lowercase().contains("fail") && t.contains(' ')).collect());
+  let h = hash64(&(k, 0xe77u32)) as usize;
+  let errno = ERRNOS[h % ERRNOS.len()];
+  let os = format!("{}", nix::Error::Sys(errno));
+  let key = match what { "send" => "write", "next_keyboard" => "keyboard", "next_tablet" => "tablet", "poll" => "poll", _ => "" };
+  let preferred: Vec<&String> = formats.iter().filter(|f| !key.is_empty() && f.contains(key)).collect();
+  let fmt: String = if !preferred.is_empty() && (h / 64) % 4 != 0 { preferred[(h / 256) % preferred.len()].clone() } else if !formats.is_empty() { formats[(h / 256) % formats.len()].clone() } else { "{}".to_string() };
+  let real = fmt.replace("{:?}", "\"/dev/input/event3\"").replacen("{}", &os, 1);
+  if k % 4 == 1 { format!("{}: {}", marker, real) } else { real }
+}
 
 impl World {
   pub fn new(sched: Schedule, fault_at: Option<usize>, lateness_ns: u64, real_clock: bool) -> World {
@@ -117,7 +139,7 @@ impl World {
     if self.fault_at == Some(k) {
       self.faulted = true;
       self.log.push(Rec::Fault { call: k, what });
-      return Some(fault_text(k));
+      return Some(fault_text(k, what));
     }
     None
   }
@@ -547,6 +569,8 @@ pub fn check_log(layout: &Layout, log: &[Rec], real_clock: bool) -> (Vec<LV>, Lo
 // C20 oracle on a run with an injected fault
 pub fn check_fault(log: &[Rec], k: usize, runaway: bool, panicked: &Option<String>) -> Vec<LV> {
   let mut out = Vec::new();
+  let what: &str = log.iter().filter_map(|r| match r { Rec::Fault { what, .. } => Some(*what), _ => None }).next().unwrap_or("");
+  let injected = fault_text(k, what);
   let mut seen = false;
   let mut after = 0usize;
   for (i, rec) in log.iter().enumerate() {
@@ -557,9 +581,9 @@ pub fn check_fault(log: &[Rec], k: usize, runaway: bool, panicked: &Option<Strin
           match r {
             Ok(()) => out.push(LV { property: "C20", clause: "returns-error", signature: "C20:failure-swallowed".to_string(),
               message: format!("driver call #{} failed but the loop returned Ok", k), index: i }),
-            Err(e) => if !e.contains(&fault_text(k)) {
+            Err(e) => if !e.contains(&injected) {
               out.push(LV { property: "C20", clause: "returns-error", signature: "C20:wrong-error-returned".to_string(),
-                message: format!("driver call #{} failed with {:?} but the loop returned Err({:?})", k, fault_text(k), e), index: i });
+                message: format!("driver call #{} failed with {:?} but the loop returned Err({:?})", k, injected, e), index: i });
             }
           }
         }
